@@ -132,3 +132,8 @@ Definition cli_multi_file (stem : string) (digits : option Z) (tasks : list (Z *
   : list (option R) :=
   merge_parts (map (create_file stem digits) tasks).
 End Gen.
+
+(* `bb fps-shuffle`: rng.shuffle(fps, axis=0) moves the rows according to some permutation of the
+   row indices (NumPy's generator is an oracle): row k of the output is row [nth k perm] of the input *)
+Definition apply_perm {R} (perm : list nat) (rows : list R) (d : R) : list R :=
+  map (fun i => nth i rows d) perm.
